@@ -213,6 +213,7 @@ let () =
              | AErr e -> Printf.fprintf oc "A\tERR\t%s\n" (ostr (error_name e))
              | APanic s -> Printf.fprintf oc "A\tPANIC\t%s\n" (ostr s));
             output_string oc "S"; print_toks oc (run_strip item isrc); output_char oc '\n';
+            Printf.fprintf oc "K"; List.iter (fun s -> output_char oc '\t'; output_string oc (ostr s)) (run_cells (d_cfg c) item); output_char oc '\n';
             if want_digest then Printf.fprintf oc "D %s\n" (string_of_n (digest_result r))
         | L [A "observe"; Q id; c; it; vals] ->
             let lines = observe (d_cfg c) (d_item it) (d_list d_value vals) in
